@@ -133,9 +133,9 @@ def run(ctx):
         return
     core.build_harness(bins=["solve"])
     rng = ctx.rng
-    progs, items = sc.fragment_items(rng, ctx.n(30, 600), 3, 3, 5, extra=[(pg.shape_andor, ctx.n(160, 2500))])
+    progs, items = sc.fragment_items(rng, ctx.n(30, 380), 3, 3, 5, extra=[(pg.shape_andor, ctx.n(160, 1400))])
     items += wide_items(rng, ctx.n(8, 40))
-    items += corpus_items(rng, ctx.n(50, 2000), ctx.n(1, 3))
+    items += corpus_items(rng, ctx.n(50, 2000), ctx.n(1, 2))
     mism, perr = sc.run_items(items, cpu=ctx.n(4, 6), timeout=ctx.n(600, 3000))
     if mism:
         p = progs[mism[0][0]]
@@ -187,7 +187,15 @@ def run(ctx):
         if it.prog is not None:
             q, _ = pg.query_model(it.goal, it.prog.symtab())
             dd = {"P": ("program", pg.to_model(it.prog)), "q": ("query", q)}
-            ee = [(["P", "q"], "((if f14_class P q then 1 else 0) + (if f1_class P q then 2 else 0))%N")]
+            ee = [(["P", "q"], "((if f14_class P q then 1 else 0) + (if f1_class P q then 2 else 0) + (if f14b_class P q then 4 else 0))%N")]
+            # symptom of F14b: both Unique and SLG's substitution is a strict instance of the recursive solver's
+            lab, stt = {}, it.prog.symtab()
+            ms, mr = sc.model_answer(it, "slg", lab, stt), sc.model_answer(it, "rec", lab, stt)
+            strict = False
+            if sx.head(ms) == "AUnique" and sx.head(mr) == "AUnique":
+                dd["s1"] = ("list ty", ms[2]); dd["s2"] = ("list ty", mr[2])
+                ee.append((["s1", "s2"], logic.bb("instance_of s1 s2 && negb (instance_of s2 s1)")))
+                strict = True
             if not pg.has_exists(it.goal):
                 dd["g"] = ("goal", pg.goal_model(it.goal, it.prog.symtab()))
                 ee.append((["P", "g"], logic.bb("f7q_class 150 P g")))
@@ -200,6 +208,11 @@ def run(ctx):
                 dd["c"] = ("list (list ty)", [[c01._cm_ph(t, st, phmap) for t in c] for c in cands])
                 ee.append((["P", "q", "c"], logic.bb("f7q_query 150 P q c")))
             cc, fl = logic.coq_codes(ctx.work, "cls%d" % k, dd, ee)
+            if strict and not fl:
+                strict = cc[1] == 1
+                cc = [cc[0]] + cc[2:]
+            if not fl and (cc[0] & 4) and strict:
+                classes.append("F14b")
             k1 = logic.answer_kind(it.answers["slg"][1])
             k2 = logic.answer_kind(it.answers["rec"][1])
             if not fl and (cc[0] & 1) and k1 == "Unique":
@@ -234,14 +247,15 @@ def run(ctx):
         if pn not in dd:
             dd[pn] = ("program", pg.to_model(it.prog))
         dd[qn] = ("query", pg.query_model(it.goal, it.prog.symtab())[0])
-        ee.append(([pn, qn], "((if f1_class %s %s then 1 else 0) + (if f1_class_wide %s %s then 2 else 0) + (if f14_class %s %s then 4 else 0))%%N" % (pn, qn, pn, qn, pn, qn)))
+        ee.append(([pn, qn], "((if f1_class %s %s then 1 else 0) + (if f1_class_wide %s %s then 2 else 0) + (if f14_class %s %s then 4 else 0) + (if f14b_class %s %s then 8 else 0))%%N" % (pn, qn, pn, qn, pn, qn, pn, qn)))
     cc, fl = logic.coq_codes(ctx.work, "shares", dd, ee, shard=max(20, len(ee) // 16 + 1))
     if fl:
         raise core.CheckFailure("coq evaluation failed: %s" % (fl[0],))
     n = max(1, len(exprs))
     ctx.cov["known_class_shares"] = {"F1": round(sum(1 for c in cc if c & 1) / n, 4),
                                      "F1-previous-wide-definition": round(sum(1 for c in cc if c & 2) / n, 4),
-                                     "F14": round(sum(1 for c in cc if c & 4) / n, 4)}
+                                     "F14": round(sum(1 for c in cc if c & 4) / n, 4),
+                                     "F14b": round(sum(1 for c in cc if c & 8) / n, 4)}
     ctx.cov["known_class_forgiven_alarms"] = ctx.cov.get("known_class_hits", 0)
     ctx.cov["known_class_share"] = round(sum(1 for c in cc if c & 5) / n, 4)
     ctx.cov["inconclusive"] = sum(not_compared.values())
